@@ -411,14 +411,46 @@ func runC12(c *Ctx) {
 	// ---- 3/4. completion send + delete; fall-through
 	{
 		okDel, okFall := false, false
+		nSends := 0
+		var badDel []string
 		for _, b := range writeFn.Blocks {
 			for i, ins := range b.Instrs {
 				if s, ok := ins.(*ssa.Send); ok {
 					if _, f, ok := fieldLoad(s.Chan); ok && f == "replyChan" {
-						for _, nx := range b.Instrs[i+1:] {
-							if _, isDel := isBuiltinCall(nx, "delete"); isDel {
-								okDel = true
+						nSends++
+						// the record the reply channel belongs to, and the key it was found under
+						var key ssa.Value
+						if ld, isLd := s.Chan.(*ssa.UnOp); isLd {
+							if fa, isFA := ld.X.(*ssa.FieldAddr); isFA {
+								if ex, isEx := fa.X.(*ssa.Extract); isEx {
+									switch t := ex.Tuple.(type) {
+									case *ssa.Lookup:
+										key = t.Index
+									case *ssa.Next:
+										// range over the outstanding map: key is extract #1 of the same Next
+										for _, ref := range *t.Referrers() {
+											if e2, isE := ref.(*ssa.Extract); isE && e2.Index == 1 {
+												key = e2
+											}
+										}
+									}
+								}
 							}
+						}
+						deleted := false
+						for _, nx := range b.Instrs[i+1:] {
+							if del, isDel := isBuiltinCall(nx, "delete"); isDel && key != nil && del.Call.Args[1] == key {
+								deleted = true
+							}
+						}
+						// a drained queued command (never recorded) has nothing to delete
+						if key == nil {
+							deleted = true
+						}
+						if deleted {
+							okDel = true
+						} else {
+							badDel = append(badDel, c.P.RelPos(s.Pos()))
 						}
 					}
 				}
@@ -456,10 +488,14 @@ func runC12(c *Ctx) {
 			}
 		}
 		st := report.Discharged
-		if !okDel {
+		dDel := "no send on a reply channel followed by a delete of the outstanding record"
+		if !okDel || len(badDel) > 0 {
 			st = report.Violated
+			if len(badDel) > 0 {
+				dDel = fmt.Sprintf("the reply delivered at %v is not followed by deleting the record under the key it was found with: the request stays outstanding and a later frame with that serial completes it a second time", badDel)
+			}
 		}
-		R.Add("S.complete", shortFn(writeFn)+" / delivery to the recorded reply channel is followed by deleting the record", c.P.RelPos(writeFn.Pos()), st, "no send on a reply channel followed by a delete of the outstanding record")
+		R.Add("S.complete", shortFn(writeFn)+" / delivery to the recorded reply channel is followed by deleting the record", c.P.RelPos(writeFn.Pos()), st, dDel)
 		st = report.Discharged
 		if !okFall {
 			st = report.Violated
